@@ -327,6 +327,18 @@ IdentOps == {"ParseIdentifier:NewRoomID", "ParseIdentifier:NewUserID", "ParseIde
              "ParseIdentifier:ServerName", "ParseIdentifier:SenderID", "ParseIdentifier:SplitID"}
 JsonOps == {"Canonicalise:CanonicalJSON", "Canonicalise:Enforced", "RedactJSON", "VerifyJSON", "SignJSON", "ListKeyIDs"}
 KeyOps == {"CheckKeys", "KeyRing"}
+\* A key response is a JSON object whose verify_keys / old_verify_keys are keyed by KEY IDs: any JSON object key is
+\* accepted there by the parser, so the shape of the key ID is remote data of its own.  "<algorithm>:<version>" is only
+\* the usual shape: the algorithm alone (no colon), an empty version, an empty algorithm, nothing at all, several
+\* colons, an algorithm that merely starts with / contains "ed25519", other letter case, a very long one, NUL and
+\* non-ASCII bytes.  Crossed with what the key under that ID decodes to (32 bytes - the only length the ed25519
+\* branch goes on with - and its neighbours) and with where the member stands (next to a usual key, alone and signed
+\* under its own ID, among the old keys).  Every pipeline that takes a key response (KeyOps, the decoder) answers
+\* ok or error on each of them (NoPanic over hist, as for every other raw input).
+KeyIdShapes == {"alg_only", "alg_colon", "colon_ver", "colon_only", "empty", "two_colons", "alg_prefix", "alg_suffix",
+                "other_alg_only", "other_alg", "upper", "space", "long", "nul", "nonascii"}
+KeyIdLens == {"len32", "len32_other", "len31", "len33", "len64", "len0", "bad_b64", "key_null", "key_missing"}
+KeyIdPlaces == {"verify", "verify_alone", "old", "both"}
 HeaderOps == {"ParseAuthorization", "VerifyHTTPRequest"}
 BodyOps == {"Body:CheckStateResponse", "Body:SendJoin", "Body:Transaction", "Body:PerformJoin", "Body:LoadAndVerify", "Body:Backfill",
             "Handle:InviteV3"}    \* the v3 invite handler takes the (looser) proto event of the request body
